@@ -74,7 +74,7 @@ inline std::vector<Sched> schedulesFor(vh::Rng& r, bool thorough, int flavourTsa
 }
 
 //================================================================================================ single tree
-template <class E, template <class, class, class> class Algo = TbfOpenmpAlgorithm> void ompSingle(const fmm::Conf<E>& c, const std::vector<Sched>& scheds, Result& res, const char* tag, bool tsanLight) {
+template <class E, template <class, class, class> class Algo = TbfOpenmpAlgorithm> void ompSingle(const fmm::Conf<E>& c, const std::vector<Sched>& scheds, Result& res, const char* tag, bool tsanLight, bool directSum = true) {
     constexpr int D = E::Cfg::Dim;
     using Real = typename E::Cfg::RealType;
     const long N = long(c.parts.size());
@@ -82,7 +82,7 @@ template <class E, template <class, class, class> class Algo = TbfOpenmpAlgorith
     fmm::PolyRun<E, typename E::PolyKernel> seq; seq.build(c);
     { TbfAlgorithm<Real, typename E::PolyKernel, typename E::Space> a(*seq.cfg, c.upper); a.execute(*seq.tree); }
     const auto ref = fmm::snapshotTree<E>(*seq.tree, N);
-    seq.reference(false, res); seq.compare(res, std::string(tag) + ":sequential-poly-direct-sum");
+    if (directSum) { seq.reference(false, res); seq.compare(res, std::string(tag) + ":sequential-poly-direct-sum"); }
     std::set<uint64_t> distinctOrders;
     for (const auto& s : scheds) {
         fmm::PolyRun<E, typename E::CheckedPoly> pr; pr.build(c);
@@ -121,13 +121,13 @@ template <class E, template <class, class, class> class Algo = TbfOpenmpAlgorith
 }
 
 //================================================================================================ target/source
-template <class E, template <class, class, class> class AlgoTsm = TbfOpenmpAlgorithmTsm> void ompTsm(const fmm::TsmConf<E>& c, const std::vector<Sched>& scheds, Result& res, const char* tag, bool tsanLight) {
+template <class E, template <class, class, class> class AlgoTsm = TbfOpenmpAlgorithmTsm> void ompTsm(const fmm::TsmConf<E>& c, const std::vector<Sched>& scheds, Result& res, const char* tag, bool tsanLight, bool directSum = true) {
     constexpr int D = E::Cfg::Dim;
     using Real = typename E::Cfg::RealType;
     fmm::TsmPolyRun<E> seq; seq.build(c);
     { TbfAlgorithmTsm<Real, typename E::PolyKernel, typename E::Space> a(*seq.cfg, c.upper); a.execute(*seq.tree); }
     const auto ref = seq.snapshot();
-    seq.reference(); seq.compare(res, std::string(tag) + ":sequential-poly-direct-sum");
+    if (directSum) { seq.reference(); seq.compare(res, std::string(tag) + ":sequential-poly-direct-sum"); }
     std::set<uint64_t> distinctOrders;
     for (const auto& s : scheds) {
         fmm::TsmPolyRun<E> pr; pr.build(c);
@@ -186,6 +186,181 @@ template <class E> Segment c09OmpSegment(long nQ, long nT, bool tsan) {
         res.desc = fmm::tsmDesc<E>(c) + " executor=TbfOpenmpAlgorithmTsm schedules=" + vh::str(sc.size());
         ompTsm<E>(c, sc, res, "c09", tsan);
         res.sig = "tsm-omp:" + vh::str(vh::mix(c.seed, 10)); res.nontrivial = res.events["tasks-executed"] > long(sc.size()) * 3;
+    };
+    return s;
+}
+
+// C08 on the other executors: one input under many groupings (explicit sizes, automatic, TBFMM_BLOCK_SIZE; both modes) on
+// TbfOpenmpAlgorithm, TbfAlgorithmTsm and TbfOpenmpAlgorithmTsm: identical multiset of elementary interactions (== model),
+// identical expansions (by cell) and results (by original index).
+template <class E> Segment c08ExecSegment(long nQ, long nT) {
+    constexpr int D = E::Cfg::Dim;
+    using Real = typename E::Cfg::RealType;
+    Segment s; s.name = std::string("c08-exec-") + E::orderingName() + "-D" + vh::str(D);
+    s.count = [=](bool th) { return th ? nT : nQ; };
+    s.run = [=](long kk, uint64_t seed, bool th, Result& res) {
+        vh::Rng r(vh::mix(seed ^ 0xC08E, uint64_t(kk) * 4 + D));
+        auto pickSched = [&] { return Sched{int(1 + r.below(8)), int(r.below(vsched::NB_POLICIES)), r.next() % 100000}; };
+        const long envBs = 1 + long(vh::mix(seed, kk) % 7);
+        auto groupingsFor = [&](long n) { auto b = tbx::blockSizesFor(n, n <= 10); if (!th && b.size() > 8) { std::vector<long> c2{b[0], b[b.size() - 3], b[b.size() - 2]}; for (int i = 0; i < 3; ++i) c2.push_back(b[r.below(b.size())]); b = c2; } b.push_back(-1); b.push_back(-2); return b; };
+        long groupings = 0;
+        if (kk % 2 == 0) {
+            auto c = fmm::randomTsmConf<E>(r, vh::mix(seed, kk), th ? 200 : 100, E::Space::IsPeriodic ? 2 : 1);
+            c.upper = E::Space::IsPeriodic ? 1 : 2;
+            const auto bss = groupingsFor(long(c.src.size() + c.tgt.size()));
+            res.desc = fmm::tsmDesc<E>(c) + " executor=TbfAlgorithmTsm+TbfOpenmpAlgorithmTsm groupings=" + vh::str(bss.size() * 2);
+            bool haveRef = false; typename fmm::TsmPolyRun<E>::Snap ref; std::vector<vm::Elem> refElems; std::string refName;
+            for (long bs : bss) for (int ogp = 0; ogp < 2; ++ogp) for (int ex = 0; ex < 2; ++ex) {
+                auto cc = c; cc.ogp = ogp; cc.blockSize = bs < 0 ? -1 : bs;
+                if (bs == -2) setenv("TBFMM_BLOCK_SIZE", vh::str(envBs).c_str(), 1);
+                fmm::TsmPolyRun<E> pr; pr.build(cc);
+                if (bs == -2) unsetenv("TBFMM_BLOCK_SIZE");
+                const std::string name = "bs=" + vh::str(bs) + ",ogp=" + vh::str(ogp) + (ex ? ",openmp" : ",sequential");
+                const long gs = pr.tree->getNbElementsPerGroupSource(), gt = pr.tree->getNbElementsPerGroupTarget();
+                if (gs < 1 || gt < 1) res.fail("c08:block-size-not-positive", name + ": source " + vh::str(gs) + " target " + vh::str(gt));
+                if (bs == -2 && (gs != envBs || gt != envBs)) res.fail("c08:env-block-size-ignored", "TBFMM_BLOCK_SIZE=" + vh::str(envBs) + " but trees use " + vh::str(gs) + "/" + vh::str(gt));
+                if (bs > 0 && (gs != bs || gt != bs)) res.fail("c08:explicit-block-size-ignored", name);
+                vp::RecCtx<D> rc; pr.fillRec(rc, cc);
+                rc.currentTask = [] { return vsched::currentTask(); }; rc.currentWorker = [] { return vsched::currentWorker(); };
+                E::CheckedPoly::globalCtx() = &rc;
+                const auto sd = pickSched();
+                if (ex) { vsched::configure(sd.threads, sd.policy, sd.seed); auto a = std::make_unique<TbfOpenmpAlgorithmTsm<Real, typename E::CheckedPoly, typename E::Space>>(*pr.cfg, cc.upper); a->execute(*pr.tree); }
+                else { TbfAlgorithmTsm<Real, typename E::CheckedPoly, typename E::Space> a(*pr.cfg, cc.upper); a.execute(*pr.tree); }
+                for (auto& v : rc.violations) res.fail("c08:" + v.first, v.second + " [" + name + "]");
+                std::sort(rc.elems.begin(), rc.elems.end());
+                auto snap = pr.snapshot(); snap.symbolic = 0;
+                if (!haveRef) {
+                    haveRef = true; ref = snap; refElems = rc.elems; refName = name;
+                    bool o1, o2; const auto ls = fmm::leafOfSrc<D>(*pr.tree, pr.Ns, &o1); const auto lt = fmm::leafOfTgt<D>(*pr.tree, pr.Nt, &o2);
+                    vm::Cells<D> cs, ct; cs.build(c.geo.H, tbx::leafSet<D>(ls)); ct.build(c.geo.H, tbx::leafSet<D>(lt));
+                    fmm::compareElems<D>(refElems, vm::expectedElemsTsm<D>(cs, ct, E::Space::IsPeriodic, cc.upper), res, "c08:events-vs-model");
+                    pr.reference(); pr.compare(res, "c08:poly-direct-sum");
+                    res.nontrivial = !refElems.empty();
+                } else {
+                    if (rc.elems != refElems) fmm::compareElems<D>(rc.elems, refElems, res, "c08:events-differ");
+                    if (snap.rhs != ref.rhs) res.fail("c08:results-differ", name + " vs " + refName);
+                    if (snap.m != ref.m || snap.l != ref.l) res.fail("c08:expansions-differ", name + " vs " + refName);
+                }
+                res.ev("elementary-interactions", (long long)rc.elems.size());
+                ++groupings;
+            }
+            res.sig = "tsm-groupings:" + vh::str(vh::mix(c.seed, 8));
+        } else {
+            auto c = fmm::randomConf<E>(r, vh::mix(seed, kk), th ? 300 : 150, false, E::Space::IsPeriodic ? 2 : 1);
+            c.upper = E::Space::IsPeriodic ? 1 : 2;
+            const long N = long(c.parts.size());
+            const auto bss = groupingsFor(N);
+            res.desc = fmm::confDesc<E>(c) + " executor=TbfOpenmpAlgorithm groupings=" + vh::str(bss.size() * 2);
+            fmm::PolyRun<E, typename E::PolyKernel> seq; seq.build(c);
+            { TbfAlgorithm<Real, typename E::PolyKernel, typename E::Space> a(*seq.cfg, c.upper); a.execute(*seq.tree); }
+            auto ref = fmm::snapshotTree<E>(*seq.tree, N);
+            bool okIdx = true; const auto leafOf = tbx::leafOfParticle<D>(*seq.tree, N, &okIdx);
+            vm::Cells<D> cells; cells.build(c.geo.H, tbx::leafSet<D>(leafOf));
+            auto refElems = vm::expectedElems<D>(cells, E::Space::IsPeriodic, c.upper); std::sort(refElems.begin(), refElems.end());
+            for (long bs : bss) for (int ogp = 0; ogp < 2; ++ogp) {
+                auto cc = c; cc.oneGroupPerParent = ogp; cc.blockSize = bs < 0 ? -1 : bs;
+                if (bs == -2) setenv("TBFMM_BLOCK_SIZE", vh::str(envBs).c_str(), 1);
+                fmm::PolyRun<E, typename E::CheckedPoly> pr; pr.build(cc);
+                if (bs == -2) unsetenv("TBFMM_BLOCK_SIZE");
+                const std::string name = "bs=" + vh::str(bs) + ",ogp=" + vh::str(ogp);
+                if (pr.tree->getNbElementsPerGroup() < 1) res.fail("c08:block-size-not-positive", name);
+                if (bs == -2 && pr.tree->getNbElementsPerGroup() != envBs) res.fail("c08:env-block-size-ignored", name);
+                vp::RecCtx<D> rc; fmm::fillRecCtx<E>(rc, *pr.tree, *pr.cfg, &c.parts, &c.parts);
+                rc.currentTask = [] { return vsched::currentTask(); }; rc.currentWorker = [] { return vsched::currentWorker(); };
+                E::CheckedPoly::globalCtx() = &rc;
+                const auto sd = pickSched();
+                vsched::configure(sd.threads, sd.policy, sd.seed);
+                { auto a = std::make_unique<TbfOpenmpAlgorithm<Real, typename E::CheckedPoly, typename E::Space>>(*pr.cfg, cc.upper); a->execute(*pr.tree); }
+                for (auto& v : rc.violations) res.fail("c08:" + v.first, v.second + " [" + name + " " + schedStr(sd) + "]");
+                std::sort(rc.elems.begin(), rc.elems.end());
+                if (rc.elems != refElems) fmm::compareElems<D>(rc.elems, refElems, res, "c08:events-differ");
+                const auto got = fmm::snapshotTree<E>(*pr.tree, N);
+                if (got.rhs != ref.rhs) res.fail("c08:results-differ", name + " (OpenMP, " + schedStr(sd) + ") vs sequential");
+                if (got.cells != ref.cells) res.fail("c08:expansions-differ", name + " (OpenMP, " + schedStr(sd) + ") vs sequential");
+                res.ev("elementary-interactions", (long long)rc.elems.size());
+                ++groupings;
+            }
+            res.nontrivial = !refElems.empty(); res.sig = "omp-groupings:" + fmm::confSig<E>(c, vh::mix(c.seed, 8));
+        }
+        res.ev("groupings", groupings);
+    };
+    return s;
+}
+
+// C12 on the other executors: every upper working level 0..height+1 (levels at or beyond the leaf level included) and staged
+// flag histories, on TbfOpenmpAlgorithm, TbfAlgorithmTsm and TbfOpenmpAlgorithmTsm. Oracles: P-rec events == model with that
+// upper level (so nothing above it), bit-identical to the sequential executor with the same level, staged == one full run.
+template <class E> Segment c12ExecSegment(long nQ, long nT) {
+    constexpr int D = E::Cfg::Dim;
+    using Real = typename E::Cfg::RealType;
+    Segment s; s.name = std::string("c12-exec-") + E::orderingName() + "-D" + vh::str(D);
+    s.count = [=](bool th) { return th ? nT : nQ; };
+    s.run = [=](long kk, uint64_t seed, bool th, Result& res) {
+        using namespace TbfAlgorithmUtils;
+        vh::Rng r(vh::mix(seed ^ 0xC12E, uint64_t(kk) * 4 + D));
+        const int sub = int(kk % 4);
+        auto pick = [&](int n) { std::vector<Sched> v; for (int i = 0; i < n; ++i) v.push_back({int(1 + r.below(8)), int(r.below(vsched::NB_POLICIES)), r.next() % 100000}); return v; };
+        const long defUp = E::Space::IsPeriodic ? 1 : 2;
+        if (sub == 0) {
+            auto c = fmm::randomConf<E>(r, vh::mix(seed, kk), 120, false, E::Space::IsPeriodic ? 2 : 1);
+            const long H = c.geo.H;
+            res.desc = fmm::confDesc<E>(c) + " executor=TbfOpenmpAlgorithm history=upper-levels 0.." + vh::str(H + 1);
+            for (long up = 0; up <= H + 1; ++up) { auto cc = c; cc.upper = up; ompSingle<E>(cc, pick(th ? 3 : 1), res, "c12", false, up == defUp); res.ev("upper-level-runs"); }
+            res.sig = "omp-upper:" + fmm::confSig<E>(c, vh::mix(c.seed, 12)); res.nontrivial = H >= 3;
+        } else if (sub == 1) {
+            auto c = fmm::randomTsmConf<E>(r, vh::mix(seed, kk), 100, E::Space::IsPeriodic ? 2 : 1);
+            const long H = c.geo.H;
+            res.desc = fmm::tsmDesc<E>(c) + " executor=TbfAlgorithmTsm+TbfOpenmpAlgorithmTsm history=upper-levels 0.." + vh::str(H + 1);
+            for (long up = 0; up <= H + 1; ++up) {
+                auto cc = c; cc.upper = up;
+                ompTsm<E, TbfAlgorithmTsm>(cc, {{1, 0, 0}}, res, "c12", false, up == defUp);        // the sequential executor through the same monitors
+                ompTsm<E>(cc, pick(th ? 3 : 1), res, "c12", false, false);
+                res.ev("upper-level-runs");
+            }
+            res.sig = "tsm-upper:" + vh::str(vh::mix(c.seed, 12)); res.nontrivial = H >= 3;
+        } else if (sub == 2) {
+            // staged histories on the OpenMP executor
+            auto c = fmm::randomConf<E>(r, vh::mix(seed, kk), 150, false, E::Space::IsPeriodic ? 2 : 1);
+            const long N = long(c.parts.size());
+            fmm::PolyRun<E, typename E::PolyKernel> seq; seq.build(c);
+            { TbfAlgorithm<Real, typename E::PolyKernel, typename E::Space> a(*seq.cfg, c.upper); a.execute(*seq.tree); }
+            const auto ref = fmm::snapshotTree<E>(*seq.tree, N);
+            const auto& hs = fmm::flagHistories();
+            const size_t nh = th ? 24 : 6;
+            res.desc = fmm::confDesc<E>(c) + " executor=TbfOpenmpAlgorithm history=staged x" + vh::str(nh);
+            for (size_t q = 0; q < nh; ++q) {
+                const auto& h = hs[(q == 0) ? hs.size() - 1 : r.below(hs.size())];
+                const auto sd = pick(1)[0];
+                fmm::PolyRun<E, typename E::PolyKernel> pr; pr.build(c);
+                vsched::configure(sd.threads, sd.policy, sd.seed);
+                auto algo = std::make_unique<TbfOpenmpAlgorithm<Real, typename E::PolyKernel, typename E::Space>>(*pr.cfg, c.upper);
+                for (int st : h) algo->execute(*pr.tree, st);
+                if (!(fmm::snapshotTree<E>(*pr.tree, N) == ref)) { std::string hs2; for (int st : h) hs2 += vh::str(st) + " "; res.fail("c12:staged-differs-from-full", "TbfOpenmpAlgorithm stages " + hs2 + " schedule " + schedStr(sd)); }
+                res.ev("staged-histories");
+            }
+            res.sig = "omp-staged:" + fmm::confSig<E>(c, vh::mix(c.seed, 13)); res.nontrivial = N >= 2;
+        } else {
+            // staged histories on both target/source executors
+            auto c = fmm::randomTsmConf<E>(r, vh::mix(seed, kk), 100, E::Space::IsPeriodic ? 2 : 1);
+            fmm::TsmPolyRun<E> seq; seq.build(c);
+            { TbfAlgorithmTsm<Real, typename E::PolyKernel, typename E::Space> a(*seq.cfg, c.upper); a.execute(*seq.tree); }
+            const auto ref = seq.snapshot();
+            const auto& hs = fmm::flagHistories();
+            const size_t nh = th ? 24 : 6;
+            res.desc = fmm::tsmDesc<E>(c) + " executor=TbfAlgorithmTsm+TbfOpenmpAlgorithmTsm history=staged x" + vh::str(nh);
+            for (size_t q = 0; q < nh; ++q) {
+                const auto& h = hs[(q == 0) ? hs.size() - 1 : r.below(hs.size())];
+                std::string hs2; for (int st : h) hs2 += vh::str(st) + " ";
+                { fmm::TsmPolyRun<E> pr; pr.build(c); TbfAlgorithmTsm<Real, typename E::PolyKernel, typename E::Space> a(*pr.cfg, c.upper); for (int st : h) a.execute(*pr.tree, st);
+                  if (!(pr.snapshot() == ref)) res.fail("c12:staged-differs-from-full", "TbfAlgorithmTsm stages " + hs2); }
+                const auto sd = pick(1)[0];
+                { fmm::TsmPolyRun<E> pr; pr.build(c); vsched::configure(sd.threads, sd.policy, sd.seed);
+                  auto a = std::make_unique<TbfOpenmpAlgorithmTsm<Real, typename E::PolyKernel, typename E::Space>>(*pr.cfg, c.upper); for (int st : h) a->execute(*pr.tree, st);
+                  if (!(pr.snapshot() == ref)) res.fail("c12:staged-differs-from-full", "TbfOpenmpAlgorithmTsm stages " + hs2 + " schedule " + schedStr(sd)); }
+                res.ev("staged-histories", 2);
+            }
+            res.sig = "tsm-staged:" + vh::str(vh::mix(c.seed, 13)); res.nontrivial = true;
+        }
     };
     return s;
 }
